@@ -1,2 +1,28 @@
-// Package c05 holds the workloads and oracles that decide property C05.
+// Package c05 holds the workloads and oracles that decide property C05: SM2 curve and
+// scalar-field arithmetic agree with exact integer arithmetic, and the point decoders are strict.
+//
+// Library entry points executed: sm2ec.P256() (Add, Double, ScalarMult, ScalarBaseMult,
+// CombinedMult, Inverse, IsOnCurve, Unmarshal, UnmarshalCompressed, Params), the point type
+// behind it through verifhook (SetBytes, Bytes, BytesCompressed, BytesX, Add, Double, ScalarMult,
+// ScalarBaseMult, Set, Select), P256OrdInverse / P256OrdMul / ImplicitSig, ecdh.P256()
+// (NewPrivateKey, NewPublicKey, ECDH) and sm2.NewPrivateKey / NewPrivateKeyFromInt / NewPublicKey.
+//
+// Oracle: verifh/ref/ec (affine chord-and-tangent arithmetic on math/big, strict SEC 1 decoder)
+// and math/big for the scalar field. ref.go adds only evaluation-order helpers on top of
+// ec.Add / ec.Double (doubling tables, remembered partial sums) that are cross-checked against
+// ec.Mul in every child before the first case, and the bounded deterministic searches for points
+// with extreme or sparse coordinates.
+//
+// Workloads:
+//
+//	c05.basemult    ScalarBaseMult over the structured scalar families (scalars.go, mult.go)
+//	c05.scalarmult  ScalarMult: the same families crossed with the point set
+//	c05.combined    CombinedMult incl. [s1]G = +-[s2]P (exceptional final addition), zero scalars, P = infinity
+//	c05.group       Add over all ordered pairs of the point set, Double, IsOnCurve
+//	c05.jacobian    the point type with non-normalised representations, aliasing receivers,
+//	                infinities produced by the formulas, and seeded random walks
+//	c05.order       Inverse, P256OrdInverse, P256OrdMul, ImplicitSig against math/big
+//	c05.decode      accept-set monitor for SetBytes, Unmarshal, UnmarshalCompressed (also through
+//	                crypto/elliptic), sm2.NewPublicKey, ecdh NewPublicKey, IsOnCurve
+//	c05.keys        private-key constructors, derived public keys, ECDH x-coordinate
 package c05
